@@ -95,11 +95,11 @@ fn props() -> Vec<PropCfg> {
         },
         PropCfg {
             id: "C07",
-            family: "blockwise",
+            family: "blockwise+wire+hostile",
             level: "exploration",
             quick_runs: 200_000,
             thorough_runs: 3_000_000,
-            rule: "One evaluation = one seeded simulated run; the C07 clauses are evaluated on every datagram the server accepts (prepared-iff, type, version, mid, token, default-code, clean), around every apply_from_error (error-preserves, error-result) and at the clients (match: the request a reply is attributed to by message id/token is the one it was produced for, with up to 2 outstanding requests per endpoint and reordering/duplication on). Non-trivial = in-premise transfers with >= 2 exchanges (as C08/C09); distinct likewise.",
+            rule: "One evaluation = one seeded simulated run of one of three families picked by the first choice (blockwise: cooperative traffic with up to 2 outstanding requests per endpoint, reordering and duplication; wire: corrupted and byzantine datagrams, so versions 0-3, all four types and token lengths 0-8 reach from_packet; hostile: adversarial requests of all four types and the error-rendering path); the C07 clauses are evaluated on every datagram the server accepts (prepared-iff, type, version, mid, token, default-code, clean), around every apply_from_error (error-preserves, error-result) and at the clients (match: the request a reply is attributed to by message id/token is the one it was produced for, with up to 2 outstanding requests per endpoint and reordering/duplication on). Non-trivial = in-premise transfers with >= 2 exchanges (as C08/C09); distinct likewise.",
             assumptions: &["message ids and tokens are seeded samples of the 16-bit x 0-8 byte space, not its exhaustive product"],
             real: REAL_BLOCK,
             stub: STUB_BLOCK,
@@ -221,6 +221,19 @@ const WIRE_ASSUME: &[&str] = &[
 const STUB_WIRE: &[&str] = &["network (SimNet incl. truncation / bit flip / byte set / insert / delete / tail garbage)", "forwarding proxy loop", "byzantine sender", "client state machines", "server loop glue", "application"];
 
 fn run_family(family: &str, ch: &mut Ch, verbose: bool) -> Result<Outcome, String> {
+    if family.contains('+') {
+        // several families serve this property: the first choice of the
+        // stream picks one, so replay and minimisation need nothing extra
+        let parts: Vec<&str> = family.split('+').collect();
+        let i = ch.below(parts.len() as u64, "family") as usize;
+        let mut o = run_family(parts[i], ch, verbose)?;
+        o.stats.hit(match i {
+            0 => "family.first",
+            1 => "family.second",
+            _ => "family.third",
+        });
+        return Ok(o);
+    }
     match family {
         "blockwise" => Ok(fam_block::run(ch, verbose)),
         "wire" => Ok(fam_wire::run(ch, verbose)),
@@ -325,6 +338,10 @@ impl Agg {
 
 fn batch(family: &str, prop: Option<&str>, base_seed: u64, runs: u64, threads: usize, known: &[Known], keep_hashes: bool, deadline: Option<Instant>) -> Result<Agg, String> {
     let next = AtomicU64::new(0);
+    // once this many runs have violated the property the verdict is settled:
+    // stop early (matters when a defect also makes every run slow)
+    let failing_runs = AtomicU64::new(0);
+    const ENOUGH_FAILING_RUNS: u64 = 200;
     let total = Mutex::new(Agg::new());
     let err: Mutex<Option<String>> = Mutex::new(None);
     std::thread::scope(|s| {
@@ -333,7 +350,7 @@ fn batch(family: &str, prop: Option<&str>, base_seed: u64, runs: u64, threads: u
                 let mut a = Agg::new();
                 loop {
                     let i = next.fetch_add(1, Ordering::Relaxed);
-                    if i >= runs {
+                    if i >= runs || failing_runs.load(Ordering::Relaxed) >= ENOUGH_FAILING_RUNS {
                         break;
                     }
                     if let Some(d) = deadline {
@@ -375,6 +392,9 @@ fn batch(family: &str, prop: Option<&str>, base_seed: u64, runs: u64, threads: u
                             match is_known(known, v) {
                                 Some(k) => *a.known_hits.entry(k).or_insert(0) += 1,
                                 None => {
+                                    if !a.new_viol.contains_key(&i) {
+                                        failing_runs.fetch_add(1, Ordering::Relaxed);
+                                    }
                                     a.new_viol.entry(i).or_insert_with(|| v.clone());
                                 }
                             }
@@ -752,8 +772,10 @@ fn main() {
         Some("families") => {
             let mut seen = BTreeSet::new();
             for p in props() {
-                if seen.insert(p.family) {
-                    println!("{}", p.family);
+                for f in p.family.split('+') {
+                    if seen.insert(f) {
+                        println!("{}", f);
+                    }
                 }
             }
             Ok(0)
